@@ -21,6 +21,7 @@ const (
 var c02TwGuarded = []string{"timedOut", "wroteHeader", "code", "wbuf"}
 
 func c02(r *core.Run) {
+	defer c02Extra(r)
 	r.Explanation = "Decides on every control-flow path: the buffered timeoutWriter state is touched only under its mutex and nothing is buffered once timedOut is set; " +
 		"the real ResponseWriter is used only in the finished/deadline arms of timeoutHandler.ServeHTTP under that mutex and never reaches the handler goroutine; the finished arm copies headers, " +
 		"then writes the buffered status (or 200) and the buffered body; the deadline arm answers 499 iff context.Canceled else 503 and marks the writer timed out; " +
@@ -2430,6 +2431,51 @@ func c02Rpc(r *core.Run) {
 		o.Site(n, "rpc")
 		if n == 0 {
 			o.Fail("rpc/server.go", "no function of package rpc installs UnaryTimeoutInterceptor")
+		}
+	})
+	r.Check("D8/K4/rpc-deadline-arm-lock-free", "the deadline arm does not take a mutex that the handler goroutine holds across the handler call (it would wait for the handler, however long it hangs, instead of answering at the deadline)", func(o *core.O) {
+		if !need(o) {
+			return
+		}
+		mutexCall := func(in ssa.Instruction, method string) ssa.Value {
+			c, ok := in.(*ssa.Call)
+			if !ok {
+				return nil
+			}
+			if n := core.CalleeName(c); n != "(*sync.Mutex)."+method && n != "(*sync.RWMutex)."+method {
+				return nil
+			}
+			return c02Var(core.Args(c)[0])
+		}
+		// mutexes locked in the goroutine and still held when the handler is called
+		held := map[ssa.Value]bool{}
+		n := 0
+		for _, f := range run.bodys {
+			for _, lk := range core.Instrs(f, func(in ssa.Instruction) bool { return mutexCall(in, "Lock") != nil }) {
+				m := mutexCall(lk, "Lock")
+				unlock := func(in ssa.Instruction) bool { return mutexCall(in, "Unlock") == m }
+				for _, h := range run.handlerCalls {
+					if h.Parent() != f {
+						continue
+					}
+					if _, ok := core.Reach(core.Q{From: []core.At{core.After(lk)}, Target: core.Is(h), Blocked: unlock}); ok {
+						held[m] = true
+					}
+				}
+			}
+		}
+		for _, in := range core.Instrs(fn, func(in ssa.Instruction) bool { return mutexCall(in, "Lock") != nil }) {
+			if _, ok := core.Reach(core.Q{From: []core.At{armHead(run.ctxArm)}, Target: core.Is(in)}); !ok {
+				continue
+			}
+			n++
+			if held[mutexCall(in, "Lock")] {
+				o.Fail(p.InstrPos(in), "the deadline arm locks the mutex the handler goroutine holds while the handler runs: the DeadlineExceeded/Canceled reply is delayed until the handler returns")
+			}
+		}
+		o.Site(n+len(held), core.FuncName(fn))
+		if n+len(held) == 0 {
+			o.ZeroOK()
 		}
 	})
 }
